@@ -15,7 +15,7 @@ GEN_WHAT = {
     "ParserGenEq": "parser loops, parseField, ParseList/ParseObject", "StrGenEq": "unquoteJSON, quoteJSON, ParseFile",
     "TreeFormGenEq": "tree-form methods, serialize(), FormatString", "ListGenEq": "63 list methods", "ListGen2Eq": "Filter*, Min/Max, NewListFrom",
     "ObjectGenEq": "42 object methods incl. NewObjectFrom, parseVal, native", "CloneGenEq": "copy/isEqual/Clone/Equals (refinement)", "IntsInvariantL": "stored ints stay in range under every list operation, so the Filter equalities hold on reachable heaps", "IntsInvariantO": "the same for object operations, clone, tree-form writes and parser output",
-    "Async": "skeletons of the four async methods", "WriteSet": "write sets of every method", "Api": "classification of every interface method",
+    "StorageTie": "the statements that decide where list elements live = those the array-level model Model/Slices mirrors", "Async": "skeletons of the four async methods", "WriteSet": "write sets of every method", "Api": "classification of every interface method",
 }
 def gen_text(pid):
     mods = [m.split(".")[-1] for m in GEN_FOR.get(pid, [])]
